@@ -5,12 +5,21 @@ PID = 'C09'
 
 
 def items():
-    return [c for c in codecs.CONTRACTS if PID in c.props] + (partial.scenarios() if partial.ENABLED else [])
+    # 'subpacket lengths': the areas of a signature are accounted for by the octets read (SubPackets.parse, loop contracts) and the timestamps
+    # are written from the instant, whatever the time zone (scenarios tagged C09 in the packet / subpacket modules)
+    from contracts import subpackets, packets, subpacket_values
+    more = [s for s in subpackets.scenarios() + packets.scenarios() + subpacket_values.scenarios() if PID in getattr(s, 'props', ())]
+    return [c for c in codecs.CONTRACTS if PID in c.props] + (partial.scenarios() if partial.ENABLED else []) + more
+
+
+def _subpacket_widths(tier='quick', seed=0, known=()):
+    from bounded import subpacket_lengths
+    return subpacket_lengths.component(tier=tier, seed=seed, known=known)
 
 
 def run(tier='quick', seed=0, only=None):
     its = [i for i in items() if not only or only in i.cid]
-    bounded = [] if only else [codecs.partial_lengths_bounded, codecs.timestamps_bounded, codecs.mpi_reencode_bounded]
+    bounded = [] if only else [codecs.partial_lengths_bounded, codecs.timestamps_bounded, codecs.mpi_reencode_bounded, _subpacket_widths]
     return runner.run_property(PID, its, bounded=bounded, tier=tier, seed=seed, level='proof',
                                trusted_base=['pyvc symbolic executor', 'z3 5.1 / cvc5 1.0.3', 'CPython semantics of modelled builtins',
                                              'spec functions in /verif/specs/lengths.py, mpi.py transcribe RFC 4880 3.2, 4.2, 5.2.3.1'],
